@@ -103,6 +103,58 @@ Definition step_C11 (c : pcase) (_ : unit) (prev : snapshot) (e : event) (o : li
 Definition ok_C11 (c : pcase) : bool :=
   walk (step_C11 c) tt (init_snap c) (pc_events c) (pc_trace c).
 
+(** (d) "the attributes LAST announced by its parent": a BMCA run that leaves the
+    slave port slave of the same parent does not change stepsRemoved, parentDS or
+    timePropertiesDS (it re-applies the newest stored Announce of the parent, which
+    has to be the one applied on receipt).  Judged only while the sequence ids of
+    that master on that port have been strictly increasing in small steps (an id
+    that does not move forward is not stored by the library while its contents
+    are applied on receipt: observation F27, DESIGN 14.3, outside the quantifier
+    of C11).  This clause is evaluated on traces; [C11_main] is about (a)-(c). *)
+Record seen11 := mkSeen { sn_port : nat; sn_src : port_identity; sn_seq : Z; sn_ok : bool }.
+
+Fixpoint note11 (p : nat) (src : port_identity) (seq : Z) (l : list seen11) : list seen11 :=
+  match l with
+  | [] => [mkSeen p src seq true]
+  | x :: l' =>
+      if Nat.eqb (sn_port x) p && pi_eqb (sn_src x) src then
+        let d := (seq - sn_seq x) mod 65536 in
+        mkSeen p src seq (sn_ok x && (0 <? d) && (d <=? 1000)) :: l'
+      else x :: note11 p src seq l'
+  end.
+
+Definition steady11 (p : nat) (src : port_identity) (l : list seen11) : bool :=
+  existsb (fun x => Nat.eqb (sn_port x) p && pi_eqb (sn_src x) src && sn_ok x) l.
+
+Definition step_C11d (c : pcase) (l : list seen11) (prev : snapshot) (e : event) (o : list tobs) (sn : snapshot)
+  : option (list seen11) :=
+  match e with
+  | EvRecvGeneral p frame | EvRecvEvent p frame _ =>
+      match (if is_compatible frame then decoded frame else None) with
+      | Some m => match m_body m with
+                  | BAnnounce _ => Some (note11 p (h_source (m_header m)) (h_seq (m_header m)) l)
+                  | _ => Some l
+                  end
+      | None => Some l
+      end
+  | EvBmca =>
+      let parent := pd_parent (ds_parent (sn_ds prev)) in
+      let kept := existsb (fun p => (state_of prev p =? 9) && (state_of sn p =? 9) && steady11 p parent l) (all_ports c)
+                  && pi_eqb (pd_parent (ds_parent (sn_ds sn))) parent in
+      if kept then
+        if (ds_steps_removed (sn_ds sn) =? ds_steps_removed (sn_ds prev))
+           && pd_eqb (ds_parent (sn_ds sn)) (ds_parent (sn_ds prev))
+           && tp_eqb (ds_tp (sn_ds sn)) (ds_tp (sn_ds prev))
+        then Some l else None
+      else Some l
+  | _ => Some l
+  end.
+
+Definition ok_C11d (c : pcase) : bool :=
+  walk (step_C11d c) [] (init_snap c) (pc_events c) (pc_trace c).
+
+Definition ok_C11_full (c : pcase) : bool := ok_C11 c && ok_C11d c.
+
 Definition kf_C11 (c : pcase) : Z := 0.
 Definition case := pcase.
-Definition run_cases := run_cases_gen agree_port ok_C11 kf_C11.
+Definition run_cases := run_cases_gen agree_port ok_C11_full kf_C11.
